@@ -20,6 +20,7 @@ render is "crash/<Type>/<file>:<function>".
 
 Measured on this (heavily shared) machine, VF_WORKERS=4: see `describe()` / the evidence file.
 """
+import os
 import traceback
 
 from .. import gen
@@ -29,7 +30,9 @@ from ..structmin import struct_min
 ID = "C01"
 LEVEL = "exploration"
 ENGINE = "E1"
-CAP_S = {"quick": 1500, "thorough": 3600}
+CAP_S = {"quick": 900, "thorough": 3600}
+if os.environ.get("VF_CAP_S"):       # development aid: shorter wall cap (the run then reports exhaustive=false)
+    CAP_S = {"quick": int(os.environ["VF_CAP_S"]), "thorough": int(os.environ["VF_CAP_S"])}
 TECHNIQUE = ("bounded-exhaustive enumeration of renderable trees (depth / children / option-deviation bounds) x every "
              "width from the structural minimum, executed on the real renderers and judged by an independent "
              "line-width oracle")
